@@ -18,6 +18,164 @@ Definition run_spec (ms : N) (st : dstate) (buf : bytes) (r : list item * dstate
 Lemma events_cons it its : events (it :: its) = events_of it ++ events its.
 Proof. reflexivity. Qed.
 
+Definition IHk (ms mc : N) (k : nat) : Prop :=
+  forall st buf, dstate_ok st = true -> len buf <= U32MAX ->
+    snd (run ms mc k st buf) <> OutOfFuel -> run_spec ms st buf (run ms mc k st buf).
+
+Lemma run_sem_frame ms mc k fb rl src : IHk ms mc k ->
+  dstate_ok (Frame fb rl) = true -> len src <= U32MAX ->
+  snd (run ms mc (S k) (Frame fb rl) src) <> OutOfFuel ->
+  run_spec ms (Frame fb rl) src (run ms mc (S k) (Frame fb rl) src).
+Proof.
+  intros IH Hok Hlen Hfuel. cbn [run decode_step dstate_ok] in *.
+
+  unfold step_frame in *. destruct (len src <? rl) eqn:E.
+  { cbn. split; [apply sem_fr_need; lia|]. intros _ m [=]. }
+  unfold split_at in *. pose proof (decode_packet_np fb (firstn (N.to_nat rl) src)) as Hnp.
+  destruct (decode_packet fb _) as [p|e|s] eqn:Ed; try contradiction.
+  + specialize (IH FrameHeader (skipn (N.to_nat rl) src) eq_refl ltac:(lens; lia)).
+    destruct (run ms mc k FrameHeader _) as [[[its1 st1] buf1] o1]. cbn [snd] in *.
+    destruct (IH Hfuel) as [Hs Hr]. split; [|exact Hr].
+    rewrite events_cons. cbn [events_of app]. eapply sem_fr_ok; eauto. lia.
+  + cbn. split; [apply sem_fr_err; [lia|exact Ed]|]. intros [=].
+Qed.
+
+Lemma deliver_cases mc fb rl pub r : p_payload_size pub <= VI_MAX -> len r <= U32MAX ->
+  let plen := p_payload_size pub in
+  (plen <= len r /\
+   deliver mc fb rl pub r
+   = (Ok (Some (IPublish pub (firstn (N.to_nat plen) r) rl)), FrameHeader, skipn (N.to_nat plen) r)) \/
+  (len r < plen /\
+   deliver mc fb rl pub r = (Ok (Some (IPublish pub r rl)), PublishPayload (plen - len r), [])) \/
+  (len r < plen /\
+   deliver mc fb rl pub r = (Ok (Some (IPublish pub [] rl)), PublishPayload plen, r)).
+Proof.
+  intros Hps Hlr. cbn zeta. unfold deliver. set (plen := p_payload_size pub) in *.
+  rewrite as_u32_small by lia.
+  destruct ((plen <=? len r) || (mc =? 0) || (mc <=? len r)) eqn:Ec.
+  - unfold split_at. set (kk := N.min (len r) plen).
+    assert (Hk : as_u32 (len (firstn (N.to_nat kk) r)) = kk).
+    { lens. rewrite as_u32_small; unfold kk, U32MAX, VI_MAX in *; lia. }
+    rewrite Hk, sub_chk_ok by (unfold kk; lia).
+    destruct (0 <? plen - kk) eqn:Ez.
+    + right; left. assert (Hkk : kk = len r) by (unfold kk in *; lia). split; [unfold kk in *; lia|].
+      rewrite Hkk. rewrite skipn_all2, firstn_all2 by (rewrite <- len_length; lia). reflexivity.
+    + left. assert (Hkk : kk = plen) by (unfold kk in *; lia). split; [unfold kk in *; lia|].
+      rewrite Hkk. reflexivity.
+  - right; right. split; [lia|reflexivity].
+Qed.
+
+Lemma payload_cases mc n src : 0 < n -> n <= VI_MAX -> len src <= U32MAX ->
+  (n <= len src /\
+   step_publish_payload mc n src
+   = (Ok (Some (IChunk (firstn (N.to_nat n) src) true)), FrameHeader, skipn (N.to_nat n) src)) \/
+  (len src < n /\
+   step_publish_payload mc n src = (Ok (Some (IChunk src false)), PublishPayload (n - len src), [])) \/
+  (len src < n /\ step_publish_payload mc n src = (Ok None, PublishPayload n, src)).
+Proof.
+  intros H0 Hn Hl. unfold step_publish_payload. rewrite as_u32_small by lia.
+  destruct ((n <=? len src) || (negb (mc =? 0) && (mc <=? len src))) eqn:Ec.
+  - unfold split_at. set (kk := N.min (len src) n).
+    assert (Hk : as_u32 (len (firstn (N.to_nat kk) src)) = kk).
+    { lens. rewrite as_u32_small; unfold kk, U32MAX, VI_MAX in *; lia. }
+    rewrite Hk, sub_chk_ok by (unfold kk; lia).
+    destruct (0 <? n - kk) eqn:Ez.
+    + right; left. assert (Hkk : kk = len src) by (unfold kk in *; lia). split; [unfold kk in *; lia|].
+      rewrite Hkk. rewrite skipn_all2, firstn_all2 by (rewrite <- len_length; lia). reflexivity.
+    + left. assert (Hkk : kk = n) by (unfold kk in *; lia). split; [unfold kk in *; lia|].
+      rewrite Hkk. reflexivity.
+  - right; right. split; [lia|reflexivity].
+Qed.
+
+(* one unfolding of [run] *)
+Lemma run_S_item ms mc k st buf it st1 buf1 : decode_step ms mc st buf = (Ok (Some it), st1, buf1) ->
+  run ms mc (S k) st buf
+  = (it :: fst (fst (fst (run ms mc k st1 buf1))), snd (fst (fst (run ms mc k st1 buf1))),
+     snd (fst (run ms mc k st1 buf1)), snd (run ms mc k st1 buf1)).
+Proof. intros E. cbn [run]. rewrite E. destruct (run ms mc k st1 buf1) as [[[a b] c] d]. reflexivity. Qed.
+Lemma run_S_none ms mc k st buf st1 buf1 : decode_step ms mc st buf = (Ok None, st1, buf1) ->
+  run ms mc (S k) st buf = ([], st1, buf1, NeedMore).
+Proof. intros E. cbn [run]. now rewrite E. Qed.
+Lemma run_S_err ms mc k st buf e st1 buf1 : decode_step ms mc st buf = (Err e, st1, buf1) ->
+  run ms mc (S k) st buf = ([], st1, buf1, Failed e).
+Proof. intros E. cbn [run]. now rewrite E. Qed.
+
+Lemma run_spec_item ms mc k st buf it st1 buf1 :
+  decode_step ms mc st buf = (Ok (Some it), st1, buf1) ->
+  snd (run ms mc (S k) st buf) <> OutOfFuel ->
+  (forall its st' buf' o, run ms mc k st1 buf1 = (its, st', buf', o) -> o <> OutOfFuel ->
+     sem ms st buf (events_of it ++ events its ++ pending st' buf') (fst (flush st' buf')) (snd (flush st' buf')) o
+     /\ rest_ok o st' buf') ->
+  run_spec ms st buf (run ms mc (S k) st buf).
+Proof.
+  intros E Hfuel H. rewrite (run_S_item _ _ _ _ _ _ _ _ E) in *. cbn [snd] in Hfuel.
+  destruct (run ms mc k st1 buf1) as [[[its st'] buf'] o]. cbn [fst snd] in *.
+  unfold run_spec. rewrite events_cons, <- app_assoc. now apply H.
+Qed.
+
+Lemma run_sem_ph ms mc k fb rl src : IHk ms mc k ->
+  dstate_ok (PublishHeader fb rl) = true -> len src <= U32MAX ->
+  snd (run ms mc (S k) (PublishHeader fb rl) src) <> OutOfFuel ->
+  run_spec ms (PublishHeader fb rl) src (run ms mc (S k) (PublishHeader fb rl) src).
+Proof.
+  intros IH Hok Hlen Hfuel. cbn [dstate_ok] in Hok.
+  pose proof (step_publish_header_parse mc fb rl src) as Hp.
+  change (step_publish_header mc fb rl src) with (decode_step ms mc (PublishHeader fb rl) src) in Hp.
+  destruct (parse_pub fb rl src) as [|e r|pub r] eqn:Ep.
+  { rewrite (run_S_none ms mc k (PublishHeader fb rl) src _ _ Hp).
+    split; [now apply sem_ph_need|]. intros _ m [=]. }
+  { rewrite (run_S_err ms mc k (PublishHeader fb rl) src _ _ _ Hp).
+    split; [now apply sem_ph_err|]. intros [=]. }
+  destruct (parse_pub_ok_inv fb rl src pub r ltac:(lia) Ep) as [Hps Hlr].
+  assert (Hlr' : len r <= U32MAX) by lia.
+  destruct (deliver_cases mc fb rl pub r Hps Hlr') as [[Hc E]|[[Hc E]|[Hc E]]]; cbn zeta in *;
+    rewrite E in Hp; clear E.
+  - apply (run_spec_item ms mc k _ _ _ _ _ Hp Hfuel). intros its st' buf' o Er Ho.
+    assert (Hl2 : len (skipn (N.to_nat (p_payload_size pub)) r) <= U32MAX) by (rewrite len_skipn; lia).
+    pose proof (IH FrameHeader _ eq_refl Hl2) as IH'. rewrite Er in IH'. destruct (IH' Ho) as [Hs Hr].
+    split; [|exact Hr]. cbn [events_of app]. eapply sem_ph_ok; [exact Ep|].
+    apply sem_pp_done; [lia|exact Hs].
+  - apply (run_spec_item ms mc k _ _ _ _ _ Hp Hfuel). intros its st' buf' o Er Ho.
+    assert (Hd : dstate_ok (PublishPayload (p_payload_size pub - len r)) = true)
+      by (cbn [dstate_ok]; unfold VI_MAX in *; lia).
+    assert (Hl2 : len (@nil N) <= U32MAX) by (rewrite len_nil; unfold U32MAX; lia).
+    pose proof (IH _ _ Hd Hl2) as IH'. rewrite Er in IH'. destruct (IH' Ho) as [Hs Hr].
+    split; [|exact Hr].
+    apply sem_pp_nil in Hs as (HE & Hst1 & Hb1 & Ho'); [|lia].
+    rewrite HE, Hst1, Hb1, Ho'. cbn [events_of]. rewrite app_nil_r.
+    eapply sem_ph_ok; [exact Ep|]. apply sem_pp_need. lia.
+  - apply (run_spec_item ms mc k _ _ _ _ _ Hp Hfuel). intros its st' buf' o Er Ho.
+    assert (Hd : dstate_ok (PublishPayload (p_payload_size pub)) = true)
+      by (cbn [dstate_ok]; unfold VI_MAX in *; lia).
+    pose proof (IH _ _ Hd Hlr') as IH'. rewrite Er in IH'. destruct (IH' Ho) as [Hs Hr].
+    split; [|exact Hr]. cbn [events_of map app]. eapply sem_ph_ok; [exact Ep|exact Hs].
+Qed.
+
+Lemma run_sem_pp ms mc k n src : IHk ms mc k ->
+  dstate_ok (PublishPayload n) = true -> len src <= U32MAX ->
+  snd (run ms mc (S k) (PublishPayload n) src) <> OutOfFuel ->
+  run_spec ms (PublishPayload n) src (run ms mc (S k) (PublishPayload n) src).
+Proof.
+  intros IH Hok Hlen Hfuel. cbn [dstate_ok] in Hok. cbn [run decode_step] in *.
+  destruct (payload_cases mc n src ltac:(lia) ltac:(lia) Hlen) as [[Hc E]|[[Hc E]|[Hc E]]];
+    rewrite E in *; clear E.
+  - specialize (IH FrameHeader (skipn (N.to_nat n) src) eq_refl ltac:(lens; lia)).
+    destruct (run ms mc k FrameHeader _) as [[[its1 st2] buf2] o1]. cbn [snd] in *.
+    destruct (IH Hfuel) as [Hs Hr]. split; [|exact Hr].
+    rewrite events_cons, <- app_assoc. cbn [events_of]. apply sem_pp_done; [lia|exact Hs].
+  - specialize (IH (PublishPayload (n - len src)) []). cbn [dstate_ok] in IH.
+    specialize (IH ltac:(unfold VI_MAX in *; lia) ltac:(rewrite len_nil; unfold U32MAX; lia)).
+    destruct (run ms mc k (PublishPayload (n - len src)) []) as [[[its1 st2] buf2] o1]. cbn [snd] in *.
+    destruct (IH Hfuel) as [Hs Hr]. split; [|exact Hr].
+    apply sem_pp_nil in Hs as (HE & Hst2 & Hb2 & Ho); [|lia].
+    rewrite events_cons, <- app_assoc, HE, Hst2, Hb2, Ho. cbn [events_of]. rewrite app_nil_r.
+    apply sem_pp_need. lia.
+  - unfold run_spec. cbn [events app pending flush flat_map].
+    replace (len src <? n) with true by lia. cbn [fst snd].
+    rewrite firstn_all2 by (rewrite <- len_length; lia).
+    split; [apply sem_pp_need; lia|]. intros _ m [= <-]. lia.
+Qed.
+
 Lemma run_sem ms mc : forall fuel st buf,
   dstate_ok st = true -> len buf <= U32MAX ->
   snd (run ms mc fuel st buf) <> OutOfFuel -> run_spec ms st buf (run ms mc fuel st buf).
@@ -25,103 +183,8 @@ Proof.
   induction fuel as [|k IH]; intros st buf Hok Hlen Hfuel; [cbn in Hfuel; congruence|].
   assert (Hnf : forall st0 src, st0 <> FrameHeader -> dstate_ok st0 = true -> len src <= U32MAX ->
             snd (run ms mc (S k) st0 src) <> OutOfFuel -> run_spec ms st0 src (run ms mc (S k) st0 src)).
-  { clear st buf Hok Hlen Hfuel. intros [|fb rl|fb rl|n] src Hst Hok Hlen Hfuel; [congruence| | |];
-      cbn [run decode_step dstate_ok] in *.
-    - (* Frame *)
-      unfold step_frame in *. destruct (len src <? rl) eqn:E.
-      { cbn. split; [apply sem_fr_need; lia|]. intros _ m [=]. }
-      unfold split_at in *. pose proof (decode_packet_np fb (firstn (N.to_nat rl) src)) as Hnp.
-      destruct (decode_packet fb _) as [p|e|s] eqn:Ed; try contradiction.
-      + specialize (IH FrameHeader (skipn (N.to_nat rl) src) eq_refl ltac:(lens; lia)).
-        destruct (run ms mc k FrameHeader _) as [[[its1 st1] buf1] o1]. cbn [snd] in *.
-        destruct (IH Hfuel) as [Hs Hr]. split; [|exact Hr].
-        rewrite events_cons. cbn [events_of app]. eapply sem_fr_ok; eauto. lia.
-      + cbn. split; [apply sem_fr_err; [lia|exact Ed]|]. intros [=].
-    - (* PublishHeader *)
-      rewrite step_publish_header_parse in *.
-      destruct (parse_pub fb rl src) as [|e r|pub r] eqn:Ep.
-      { cbn. split; [now apply sem_ph_need|]. intros _ m [=]. }
-      { cbn. split; [now apply sem_ph_err|]. intros [=]. }
-      destruct (parse_pub_ok_inv fb rl src pub r ltac:(lia) Ep) as [Hps Hlr].
-      unfold deliver in *. set (plen := p_payload_size pub) in *.
-      rewrite as_u32_small in * by lia.
-      destruct ((plen <=? len r) || (mc =? 0) || (mc <=? len r)) eqn:Ec.
-      + unfold split_at in *. set (kk := N.min (len r) plen) in *.
-        assert (Hk : as_u32 (len (firstn (N.to_nat kk) r)) = kk).
-        { lens. rewrite as_u32_small; unfold U32MAX, VI_MAX in *; lia. }
-        rewrite Hk in *. rewrite sub_chk_ok in * by lia.
-        destruct (0 <? plen - kk) eqn:Ez.
-        * (* payload incomplete: everything buffered is delivered, the buffer is empty *)
-          assert (Hkk : kk = len r) by lia.
-          assert (Hsk : skipn (N.to_nat kk) r = []).
-          { apply skipn_all2. rewrite <- len_length. lia. }
-          assert (Hfk : firstn (N.to_nat kk) r = r).
-          { apply firstn_all2. rewrite <- len_length. lia. }
-          rewrite Hsk, Hfk in *.
-          specialize (IH (PublishPayload (plen - kk)) []). cbn [dstate_ok] in IH.
-          specialize (IH ltac:(unfold VI_MAX in *; lia) ltac:(rewrite len_nil; unfold U32MAX; lia)).
-          destruct (run ms mc k (PublishPayload (plen - kk)) []) as [[[its1 st1] buf1] o1]. cbn [snd] in *.
-          destruct (IH Hfuel) as [Hs Hr]. split; [|exact Hr].
-          apply sem_pp_nil in Hs as (HE & Hst1 & Hb1 & Ho); [|lia].
-          rewrite events_cons, <- app_assoc, HE, Hst1, Hb1, Ho. cbn [events_of].
-          rewrite app_nil_r. cbn [app]. eapply sem_ph_ok; [exact Ep|]. fold plen. rewrite Hkk.
-          apply sem_pp_need. lia.
-        * (* payload complete *)
-          assert (Hkk : kk = plen) by lia. rewrite Hkk in *.
-          specialize (IH FrameHeader (skipn (N.to_nat plen) r) eq_refl ltac:(lens; lia)).
-          destruct (run ms mc k FrameHeader _) as [[[its1 st1] buf1] o1]. cbn [snd] in *.
-          destruct (IH Hfuel) as [Hs Hr]. split; [|exact Hr].
-          rewrite events_cons, <- app_assoc. cbn [events_of app]. eapply sem_ph_ok; [exact Ep|]. fold plen.
-          apply sem_pp_done; [lia|exact Hs].
-      + (* nothing delivered with the PUBLISH *)
-        specialize (IH (PublishPayload plen) r). cbn [dstate_ok] in IH.
-        specialize (IH ltac:(unfold VI_MAX in *; lia) ltac:(lia)).
-        destruct (run ms mc k (PublishPayload plen) r) as [[[its1 st1] buf1] o1]. cbn [snd] in *.
-        destruct (IH Hfuel) as [Hs Hr]. split; [|exact Hr].
-        rewrite events_cons. cbn [events_of map app]. eapply sem_ph_ok; [exact Ep|exact Hs].
-    - (* PublishPayload *)
-      destruct (decode_step ms mc (PublishPayload n) src) as [[[[it|]|e|s] st1] buf1] eqn:Es;
-        cbn [decode_step] in Es; rewrite Es in *.
-      + apply publish_payload_piece in Es as (pl & eof & -> & Hsum & He & Hm & Hst1 & Hpl & Hb1); [|lia].
-        set (kk := N.min (len src) n) in *.
-        destruct eof.
-        * subst st1. cbn [owed_of] in Hsum.
-          assert (Hkk : kk = n) by (rewrite Hpl in Hsum; revert Hsum; lens; lia).
-          rewrite Hkk in *. subst pl buf1.
-          specialize (IH FrameHeader (skipn (N.to_nat n) src) eq_refl ltac:(lens; lia)).
-          destruct (run ms mc k FrameHeader _) as [[[its1 st2] buf2] o1]. cbn [snd] in *.
-          destruct (IH Hfuel) as [Hs Hr]. split; [|exact Hr].
-          rewrite events_cons, <- app_assoc. cbn [events_of]. apply sem_pp_done; [lia|exact Hs].
-        * subst st1. cbn [owed_of] in *.
-          assert (Hkk : kk = len src).
-          { assert (Hlp : len pl = kk) by (rewrite Hpl; lens; unfold kk; lia). unfold kk in *. lia. }
-          rewrite Hkk in *.
-          assert (Hsk : skipn (N.to_nat (len src)) src = []).
-          { apply skipn_all2. rewrite <- len_length. lia. }
-          assert (Hfk : firstn (N.to_nat (len src)) src = src).
-          { apply firstn_all2. rewrite <- len_length. lia. }
-          rewrite Hsk in Hb1. rewrite Hfk in Hpl. subst pl buf1.
-          specialize (IH (PublishPayload (n - len src)) []). cbn [dstate_ok] in IH.
-          specialize (IH ltac:(unfold VI_MAX in *; lia) ltac:(rewrite len_nil; unfold U32MAX; lia)).
-          destruct (run ms mc k (PublishPayload (n - len src)) []) as [[[its1 st2] buf2] o1]. cbn [snd] in *.
-          destruct (IH Hfuel) as [Hs Hr]. split; [|exact Hr].
-          apply sem_pp_nil in Hs as (HE & Hst2 & Hb2 & Ho); [|lia].
-          rewrite events_cons, <- app_assoc, HE, Hst2, Hb2, Ho. cbn [events_of]. rewrite app_nil_r.
-          apply sem_pp_need. lia.
-      + (* waiting *)
-        unfold step_publish_payload in Es. rewrite as_u32_small in Es by lia.
-        destruct ((n <=? len src) || (negb (mc =? 0) && (mc <=? len src))) eqn:Ec.
-        { unfold split_at in Es. cbv beta iota in Es. destruct (sub_chk _ _) as [a| |]; [destruct (0 <? a)| |]; discriminate. }
-        injection Es as <- <-. unfold run_spec. cbn [events app pending flush flat_map].
-        replace (len src <? n) with true by lia. cbn [fst snd].
-        rewrite firstn_all2 by (rewrite <- len_length; lia).
-        split; [apply sem_pp_need; lia|]. intros _ m [= <-]. lia.
-      + exfalso. unfold step_publish_payload in Es. destruct (_ || _); [|discriminate].
-        unfold split_at in Es. cbv beta iota in Es.
-        rewrite sub_chk_ok in Es; [match type of Es with (if ?c then _ else _) = _ => destruct c end; discriminate|].
-        pose proof (as_u32_le (len (firstn (N.to_nat (N.min (len src) n)) src))). revert H. lens. lia.
-      + exfalso. pose proof (v3_decode_total ms mc (PublishPayload n) src) as T. cbn [decode_step] in T.
-        rewrite Es in T. exact T. }
+  { intros [|fb rl|fb rl|n] src Hst Hok0 Hlen0 Hfuel0; [congruence| | |].
+    - now apply run_sem_frame. - now apply run_sem_ph. - now apply run_sem_pp. }
   destruct st as [|fb rl|fb rl|n]; try (apply Hnf; auto; discriminate).
   (* FrameHeader: stop at the header, or continue as the state entered *)
   pose proof (step_frame_header_fixed ms mc buf) as Hfix.
